@@ -73,7 +73,7 @@ def explore(core, rng, tier, seed, search=False):
     for _ in range(60):
         xs = [rng.choice([0, 0, 0, rng.randrange(-5, 6)]) for _ in range(rng.randrange(0, 6))]
         sc += ["coal [%s]" % ",".join(map(str, xs)), "iszero %d" % rng.randrange(-2, 3), "tern %d %d %d" % (rng.randrange(2), rng.randrange(9), rng.randrange(9)),
-               "zero", "zeroof %d" % rng.randrange(-9, 9), "iszerom %d" % rng.randrange(-4, 5), "terncast %d %d %d %d" % (rng.randrange(2), rng.randrange(2), rng.randrange(9), rng.randrange(9)),
+               "zero", "zeroof %d" % rng.randrange(-9, 9), "iszerom %d" % rng.randrange(-4, 5), "iszeros %d" % rng.choice([0, 0, 7, 7, 1, 3]), "terncast %d %d %d %d" % (rng.randrange(2), rng.randrange(2), rng.randrange(9), rng.randrange(9)),
                "isnil %d" % rng.randrange(7), "ref %d" % rng.randrange(-9, 9), "derefzero %d %d" % (rng.randrange(2), rng.randrange(-9, 9))]
     scripts.append(sc)
     return scriptprop.explore(core, ID, scripts, nontrivial=lambda sc: True, exhaustive=True)
